@@ -87,25 +87,18 @@ fn resolve_day(day: Option<u8>, is_year_month: bool) -> TemporalResult<u8> {
 #[derive(Debug)]
 pub struct Era(pub(crate) TinyAsciiStr<16>);
 
+/// A year, either counted in an era or, without one, the calendar's arithmetic year.
 #[derive(Debug)]
 pub struct EraYear {
-    pub(crate) era: Era,
+    pub(crate) era: Option<Era>,
     pub(crate) year: i32,
 }
 
 impl EraYear {
     pub(crate) fn try_from_partial_date(partial: &PartialDate) -> TemporalResult<Self> {
         match (partial.year, partial.era, partial.era_year) {
-            (Some(year), None, None) => {
-                let Some(era) = partial.calendar.get_calendar_default_era() else {
-                    return Err(TemporalError::r#type()
-                        .with_message("Era is required for the provided calendar."));
-                };
-                Ok(Self {
-                    era: Era(era.name),
-                    year,
-                })
-            }
+            // A year on its own is the arithmetic year of the calendar and needs no era.
+            (Some(year), None, None) => Ok(Self { era: None, year }),
             (None, Some(era), Some(era_year)) => {
                 let Some(era_info) = partial.calendar.get_era_info(&era) else {
                     return Err(TemporalError::range().with_message("Invalid era provided."));
@@ -118,7 +111,7 @@ impl EraYear {
                 }
                 Ok(Self {
                     year: era_year,
-                    era: Era(era_info.name),
+                    era: Some(Era(era_info.name)),
                 })
             }
             _ => Err(TemporalError::r#type()
